@@ -222,6 +222,44 @@ class Check:
                                        {"query": q, "tz": case["tz"], "midnight_at_clock_read": k, "only_k": k, "file_day_X_selected": sel[(0, k)], "file_day_X_plus_1_selected": sel[(1, k)],
                                         "day_X": str(dayD)}))
                 break
+        if not viols and case.get("only_k") is None:
+            # the same comparison twice in ONE interactive session (`fselect -i`), midnight striking at the k-th clock read of the
+            # session. As above there is one file per world (so each query evaluates the literal once) and two worlds: each query of
+            # the session selects the file of exactly one of them (one whole day), the day never goes back, and for some k the first
+            # query still sees day X and the second day X+1: a session left open over midnight follows the clock.
+            q1 = "select name from %s where modified = %s into list" % (top, ltext)
+            q2 = "select path from %s where modified = %s into list" % (top, ltext)
+            ans = {}
+            for which in (0, 1):
+                d = dayD + datetime.timedelta(days=which)
+                ts = int(DT(d.year, d.month, d.day, 12, 0, 0, tzinfo=z).timestamp())
+                world = {"nodes": [{"path": top, "type": "dir"}, {"path": top + "/f", "type": "file", "content": "x", "mtime": ts * 10 ** 9}]}
+                with ctx.sandbox(world) as sb:
+                    for k in ks:
+                        plan = {"entropy": case["entropy"], "clock": [(mid - 1) * 10 ** 9 + 900000000, 0], "clock_jump": [mid * 10 ** 9 + 100000000, k]}
+                        res = sb.run(["-i"], plan=plan, tz=case["tz"], stdin_text=q1 + "\n" + q2 + "\nexit\n")
+                        cells = [x for x in res.stdout.split(b"\0") if x]
+                        if res.sim or res.signal is not None or any(c not in (b"f", (top + "/f").encode()) for c in cells) or len(cells) != len(set(cells)):
+                            return [Violation(PROP, "C13.run", ["C13.run", "abnormal_end", "session:" + lit["rel"]], {"queries": [q1, q2], "tz": case["tz"], "k": k, "outcome": res.summary()})]
+                        ans[(which, k)] = (b"f" in cells, (top + "/f").encode() in cells)
+                        ctx.metric("jump_session_runs")
+            pairs = set()
+            for k in ks:
+                days = []
+                for i in (0, 1):
+                    if ans[(0, k)][i] == ans[(1, k)][i]:
+                        viols.append(Violation(PROP, "C13.rel", ["C13.rel", "literal_spans_two_days_or_none", "session:" + lit["rel"]],
+                                               {"queries": [q1, q2], "tz": case["tz"], "midnight_at_clock_read": k, "query_of_session": i + 1}))
+                        return viols
+                    days.append(0 if ans[(0, k)][i] else 1)
+                if days == [1, 0]:
+                    viols.append(Violation(PROP, "C13.rel", ["C13.rel", "day_goes_back_within_a_session", "session:" + lit["rel"]],
+                                           {"queries": [q1, q2], "tz": case["tz"], "midnight_at_clock_read": k}))
+                    return viols
+                pairs.add(tuple(days))
+            if (0, 1) not in pairs and (0, 0) in pairs and (1, 1) in pairs:
+                viols.append(Violation(PROP, "C13.rel", ["C13.rel", "session_keeps_the_first_query's_day", "session:" + lit["rel"]],
+                                       {"queries": [q1, q2], "tz": case["tz"], "day_pairs_seen": sorted(pairs), "k_range": [ks[0], ks[-1]]}))
         if len(ctx.samples) < 2:
             ctx.samples.append({"argv": [q], "tz": case["tz"], "midnight_strikes_at_read": "every k in 0..%d" % (len(ks) - 1)})
         return viols
